@@ -17,7 +17,7 @@ func init() {
 	simrt.Register(&simrt.Scenario{
 		Prop: "C12", Name: "close-anytime", Count: tiered(8000, 640000),
 		Run: c12Run, MaxOps: 2 << 20, Horizon: 6 * time.Hour,
-		Doc: "Close invoked at a tape-chosen point of a connection's life (handshake cancelled, idle, mid-burst, full window, mid-resend / sync wait, Send/Recv blocked) by either side or both at once, 1-3 concurrent callers plus repeats, over a healthy / blacked-out / stalled transport; bounded return, callers woken, peer notified, nothing left running",
+		Doc: "Close invoked at a tape-chosen point of a connection's life (handshake cancelled, idle, mid-burst, full window, mid-resend / sync wait, Send/Recv blocked, a backlog of received packets that the application never reads) by either side or both at once, 1-3 concurrent callers plus repeats, over a healthy / blacked-out / stalled transport; bounded return, callers woken, peer notified, nothing left running",
 	})
 }
 
@@ -38,7 +38,7 @@ func c12Run(rc *simrt.RunCtx) {
 		tk.ping = time.Duration(1+rc.Pick(4, "knob.ping")) * time.Second
 		tk.pong = time.Duration(1+rc.Pick(3, "knob.pong")) * time.Second
 	}
-	phases := []string{"handshake", "idle", "burst", "full-window", "resend", "blocked-recv"}
+	phases := []string{"handshake", "idle", "burst", "full-window", "resend", "blocked-recv", "unread-backlog"}
 	phase := phases[rc.Pick(len(phases), "wl.phase")]
 	transports := []string{"healthy", "healthy", "blackout", "stall"}
 	transport := transports[rc.Pick(len(transports), "wl.transport")]
@@ -134,7 +134,9 @@ func c12Run(rc *simrt.RunCtx) {
 		}()
 	}
 	recvLoop(cli, &trC)
-	recvLoop(srv, &trS)
+	if phase != "unread-backlog" {
+		recvLoop(srv, &trS)
+	}
 	ackBlackout := func() {
 		np.s2c.mu.Lock()
 		np.s2c.filter = func(b []byte, _ time.Duration) (byte, time.Duration) {
@@ -163,6 +165,12 @@ func c12Run(rc *simrt.RunCtx) {
 		time.Sleep(tk.resend + time.Duration(rc.Pick(int(4*tk.resend/time.Millisecond), "wl.close-after"))*time.Millisecond)
 	case "idle", "blocked-recv":
 		time.Sleep(time.Duration(rc.Pick(9000, "wl.close-after")) * time.Millisecond)
+	case "unread-backlog":
+		// the server application does not call Recv while the client sends
+		// more than a window of messages: the server's receive loop sits
+		// on packets nobody takes
+		sendLoop(cli, &trC, 'A', int(n)+2+rc.Pick(5, "wl.extra"))
+		time.Sleep(time.Duration(50+rc.Pick(3000, "wl.close-after")) * time.Millisecond)
 	}
 
 	// ---- transport condition at the moment of Close ---------------------
@@ -293,6 +301,12 @@ func c12Run(rc *simrt.RunCtx) {
 			// dead transport and no keepalive: nothing can tell the peer
 			rc.Probe("c12.peer-uninformed-by-design")
 			return
+		}
+		if phase == "unread-backlog" && name == "server" {
+			// its application has not been reading: the FIN sits behind
+			// the unread packets. The property speaks about its calls:
+			// reading now must drain the backlog and then fail, not hang.
+			recvLoop(g, tr)
 		}
 		for rc.Now() < bound && !(isClosed(g) && tr.pending() == 0) {
 			time.Sleep(50 * time.Millisecond)
